@@ -202,14 +202,14 @@ CONTRACTS = [
              ensures=[
                  C("each_task_is_lowered_at_most_once",
                    "forall(i, 'int', forall(k, 'int', implies(0 <= i and i < k and k < seq_len(result.all_ops),"
-                   " select(result.all_ops, i).g_tid != select(result.all_ops, k).g_tid and select(result.all_ops, i) != select(result.all_ops, k))))", "C02"),
+                   " select(result.all_ops, i).g_tid != select(result.all_ops, k).g_tid and select(result.all_ops, i) != select(result.all_ops, k))))", "C02", "C09"),
                  C("only_tasks_of_the_closure_that_are_not_served_from_the_cache_are_lowered",
                    "forall(i, 'int', implies(0 <= i and i < seq_len(result.all_ops), Reach(select(result.all_ops, i).g_tid)"
                    " and (run_again or ShouldRun(select(result.all_ops, i).g_tid))))", "C02"),
                  C("cached_tasks_are_not_executed",
                    "forall(i, 'int', implies(0 <= i and i < seq_len(result.cached_tasks), not run_again and not ShouldRun(select(result.cached_tasks, i)._identifier)"
                    " and forall(k, 'int', implies(0 <= k and k < seq_len(result.all_ops), select(result.all_ops, k).g_tid != select(result.cached_tasks, i)._identifier))))", "C02"),
-                 C("progress_total_is_the_number_of_operations", "result.num_tasks_to_run == seq_len(result.all_ops)", "C02"),
+                 C("progress_total_is_the_number_of_operations", "result.num_tasks_to_run == seq_len(result.all_ops)", "C02", "C09"),
                  C("the_requested_task_is_lowered_or_cached",
                    "(not run_again and not ShouldRun(task_id)) or exists(i, 'int', 0 <= i and i < seq_len(result.all_ops) and select(result.all_ops, i).g_tid == task_id)", "C02"),
                  C("every_dependency_of_a_lowered_task_is_lowered_or_cached",
